@@ -216,5 +216,6 @@ pub fn subs() -> Vec<Box<dyn DynSub>> {
     vec![
         sub(Sub { name: "c14.floor_ceil_round", source: Source::Gen(fcr_strategy, 6_000_000, 60_000_000), oracle: fcr_oracle, known: fcr_known, hang_is_violation: false }),
         sub(Sub { name: "c14.approx", source: Source::Gen(approx_strategy, 1_200_000, 10_000_000), oracle: approx_oracle, known: approx_known, hang_is_violation: false }),
+        crate::props::fuzzsub::fc14(),
     ]
 }
